@@ -665,6 +665,9 @@ class FnCtx:
         try:
             self.run_block(st, fr, 0, None)
         except OutOfSubset as ex:
+            if os.environ.get('VCGEN_TRACE_PATHS'):
+                import traceback
+                traceback.print_exc()
             self.results.append(Result(self.short + '.subset', 'subset', self.fnkey, 'unknown', note='out of subset: %s' % ex))
         self.seconds = time.time() - t0
         for (pat, c) in self.contract.calls:
